@@ -76,6 +76,12 @@ static size_t pickLen(vf::Rng& r, uint64_t idx, long maxbig)
 	if (w < 4) return edges[(idx + r.below(3)) % (sizeof(edges) / sizeof(edges[0]))];
 	if (w < 7) return r.range(1, 300);
 	if (w < 9) return r.range(1, 70000);
+	if (r.chance(0.3)) {   // round sizes and their neighbours: 128 KiB ... 4 MiB as far as maxbig allows (limits tend to sit there)
+		int k = r.range(17, 22);
+		while (k > 17 && (1L << k) > maxbig) k--;
+		long n = (1L << k) + r.range(-1, 1);
+		if (n >= 70001 && n <= maxbig) return (size_t)n;
+	}
 	return (size_t)r.range(70001, (int)maxbig);
 }
 
@@ -393,7 +399,10 @@ static void mode_handshake(vf::Ctx& c)
 	std::vector<std::string> hs;
 	hs.push_back(spell("Host") + sep() + "example.test");
 	hs.push_back(spell("Upgrade") + sep() + "websocket");
-	hs.push_back(spell("Connection") + sep() + "Upgrade");
+	// browsers send a token list here (Firefox: "keep-alive, Upgrade"); RFC 6455 4.2.1 asks for a Connection field that includes "Upgrade"
+	bool conlist = c.rng.chance(0.3);
+	hs.push_back(spell("Connection") + sep() + (conlist ? "keep-alive, Upgrade" : "Upgrade"));
+	c.count(conlist ? "handshake.connection-token-list" : "handshake.connection-single-token");
 	hs.push_back(spell("Sec-WebSocket-Key") + sep() + key);
 	hs.push_back(spell("Sec-WebSocket-Version") + sep() + "13");
 	if (c.rng.chance(0.5)) hs.push_back(spell("Origin") + sep() + "http://example.test");
